@@ -161,15 +161,13 @@ func (f *Frame) execCall(cur *blockCur, in ssa.Instruction, cc *ssa.CallCommon, 
 				if f.c.lastCallBlock == nil {
 					f.c.lastCallBlock = map[string]*ssa.BasicBlock{}
 				}
-				if sc := cc.StaticCallee(); sc != nil {
-					f.c.lastCall[stripTypeArgs(sc.Name())] = v
-					f.c.lastCallBlock[stripTypeArgs(sc.Name())] = in.Block()
-				} else if cc.IsInvoke() {
-					f.c.lastCall[cc.Method.Name()] = v
-					f.c.lastCallBlock[cc.Method.Name()] = in.Block()
-				} else if dn := dynCallName(cc); dn != "" {
-					f.c.lastCall[dn] = v
-					f.c.lastCallBlock[dn] = in.Block()
+				if n := callHistName(cc); n != "" {
+					f.c.lastCall[n] = v
+					f.c.lastCallBlock[n] = in.Block()
+					if f.c.callHist == nil {
+						f.c.callHist = map[string][]callRec{}
+					}
+					f.c.callHist[n] = append(f.c.callHist[n], callRec{cond: cur.reach, val: v})
 				}
 			}
 		}
@@ -186,6 +184,7 @@ func (f *Frame) execCall(cur *blockCur, in ssa.Instruction, cc *ssa.CallCommon, 
 		c.stats.callsBuiltin++
 		if f.callerFrame == nil && (b.Name() == "append" || b.Name() == "copy" || b.Name() == "delete") {
 			f.callAsserts(cur, in, cc, nil, args)
+			f.countCall(cur, cc, nil)
 			if c.callPre == nil {
 				c.callPre = map[string]*State{}
 			}
@@ -387,9 +386,26 @@ func (f *Frame) havocAll(cur *blockCur) {
 	}
 }
 
+// callRec: one translated call of a name — the path condition under which it happened and what it returned.
+type callRec struct {
+	cond string
+	val  Val
+}
+
+// callHistName: the name under which returned(NAME) finds the call.
+func callHistName(cc *ssa.CallCommon) string {
+	if sc := cc.StaticCallee(); sc != nil {
+		return stripTypeArgs(sc.Name())
+	} else if cc.IsInvoke() {
+		return cc.Method.Name()
+	}
+	return dynCallName(cc)
+}
+
 type localObj struct {
-	ref  string
-	keys []HeapKey
+	ref   string
+	keys  []HeapKey
+	alloc ssa.Value // the allocation site (nil for captured variables)
 }
 
 // escapes reports whether the address of a local allocation may become known to other code.
